@@ -85,6 +85,44 @@ let rec handle (pl : string) : string =
     if !bad <> "" then "t=" ^ !bad ^ ";class=e1s:" ^ !bad
     else Printf.sprintf "t=%s;delivered=%d;spec=%s;class=e1s:n%s:m%s" (Buffer.contents trace) !delivered
            (bool01 !all) (if ios n > 21 then ">21" else n) (if ios m > 21 then ">21" else m)
+  | ["e1m"; rev2; ubase; n; rounds; prio; samp; fr] ->
+    let cid = List.map n_of_int [1;2;3;4;5;6;7;8;9;10;11;12;13;14;15;16] in
+    let name = List.map (fun c -> n_of_int (Char.code c)) ['m';'u';'l';'t';'i'] in
+    let rev2b = rev2 = "1" in
+    let ubase = ios ubase and n = ios n and rounds = ios rounds in
+    let sampled = List.map ios (String.split_on_char ',' samp) in
+    let base = List.map int_of_n (bytes_of_hex fr) in
+    let frame i r = match base with
+      | x :: y :: rest -> List.map n_of_int (((x + 31 * r + i) land 255) :: ((y + r) land 255) :: rest)
+      | [x] -> [n_of_int ((x + 31 * r + i) land 255)] | [] -> [] in
+    let states = List.map (fun i -> (i, ref { rx_src = None; rx_active = N0; rx_buf = None })) sampled in
+    let m = ref [] in
+    let trace = Buffer.create 64 in
+    let delivered = ref 0 and stray = ref 0 and expected = ref 0 and bad = ref "" in
+    for r = 0 to rounds - 1 do
+      for i = 0 to n - 1 do
+        let f = frame i r in
+        let (p, m') = tx_send_map rev2b cid name (nn prio) !m (n_of_int (ubase + i)) f in
+        m := m';
+        (match p with
+         | None -> bad := "notsent"
+         | Some p ->
+           List.iter (fun (j, st) ->
+             let ran = (match e131_rx p (n_of_int (ubase + j)) true !st with
+               | SOk (st', ran) -> st := st'; ran
+               | SOob -> bad := "OOB"; false
+               | SUnmodelled -> bad := "UNMODELLED"; false) in
+             if j = i then begin
+               incr expected;
+               let ok = ran && (!st).rx_buf = Some f in
+               if ok then incr delivered;
+               Buffer.add_string trace (if ok then "1" else "0")
+             end else if ran then incr stray) states)
+      done
+    done;
+    if !bad <> "" then "t=" ^ !bad ^ ";class=e1m:" ^ !bad
+    else Printf.sprintf "t=%s;stray=%d;delivered=%d;spec=%s;class=e1m:rev%s:N%d" (Buffer.contents trace) !stray
+           !delivered (bool01 (!delivered = !expected && !stray = 0)) (if rev2b then "2" else "3") n
   | ["enc"; cap; fr] ->
     let f = bytes_of_hex fr in
     let cls = frame_class (List.map int_of_n f) in
